@@ -132,7 +132,8 @@ func HC17_DumpLoad() {
 	capX := caps[0]
 	x := &hHW{w: NewWorld(NewConfig().WithCapacityIncrement(capX))}
 	// history before the dump: create n, then remove a symbolic sequence
-	n := [2]int{3, 5}[vChoice("n", 2)]
+	// n = 2 lets two removals empty the world before the dump (free list only, no alive entity) in the quick tier too
+	n := [3]int{2, 3, 5}[vChoice("n", 3)]
 	for i := 0; i < n; i++ {
 		x.create()
 	}
